@@ -28,6 +28,9 @@ pub fn gen(rng: &mut Prng, small: bool) -> Cfg {
     let max = rng.range(1, 4);
     let (withdrawers, depositors, ops) = if small {
         (2, 2, 3)
+    } else if rng.chance(0.15) {
+        // deposit storm on a (nearly) full budget: the cap is what is under attack
+        (rng.range(0, 1) as usize, rng.range(2, 8) as usize, *rng.pick(&[20usize, 100, 400]))
     } else {
         (rng.range(2, 8) as usize, rng.range(1, 4) as usize, *rng.pick(&[1usize, 2, 3, 50]))
     };
